@@ -652,7 +652,10 @@ static inline int myth_mutex_unlock_body(myth_mutex_t * mutex) {
       }
     }
   }
-  return failed;
+  /* the number of failed attempts is diagnostic only; the documented
+     return value of a successful unlock is zero */
+  (void)failed;
+  return 0;
 }
 
 static inline int
